@@ -19,6 +19,7 @@ pub const DICT: &[&str] = &[
     "true", "false", "TRUE", "1", "0", "-1", "4294967296", "99999999999999999999", "18446744073709551616",
     "translate(", "translate(1e99)", "rotate(45 1)", "scale()", "matrix(1 2 3)", "url(#a)", "url(#", "url()", "none",
     "M1 2 z 5", "M 0 0 Z Z", "M0 0z1", "z", "M 1", "M 1 2 L", "M1,2 3", "M 0 0 h", "M0 0 A 1 1", "M.5.5.5.5", "M1-2-3-4", "M 1e999 0",
+    "{{$é}}", "{{$Δ + 1}}", "$é", "${é}", "{{$größe * 2}}", "$_", "{{$_x}}", "{{$9}}", "{{$a.b}}", "{{$ }}",
     "M 0 0 b 30 10", "M 0 0 B", "m 1 1 q 1", "M0 0 c 1 2 3 4 5", "M 0 0 a 1 1 0 1 1", "M 0 0 t", "M0,0L1,1Z2", "M 0 0 z z z 1 1 1",
 ];
 
@@ -97,7 +98,7 @@ const BAD_SEQS: &[&[u8]] = &[
 /// One hostile document. `explicit work` of every shape is bounded (<= 5e4 element x iteration).
 pub fn hostile_doc(rng: &mut Rng, env: &WorkerEnv) -> (String, Vec<u8>) {
     let d = *rng.pick(DEPTHS);
-    match rng.below(40) {
+    match rng.below(44) {
         0 => (
             "expr-paren-depth".into(),
             format!("<svg><rect wh=\"{{{{{}}}}}\"/></svg>", nest("(", ")", d, "1")).into_bytes(),
@@ -464,6 +465,71 @@ pub fn hostile_doc(rng: &mut Rng, env: &WorkerEnv) -> (String, Vec<u8>) {
             }
             s.push_str(&format!("<var v{links}=\"1\"/><rect wh=\"{{{{$v0}}}}\"/></svg>"));
             ("expr-var-paren-chain".into(), s.into_bytes())
+        }
+        36 => {
+            // error paths of <reuse>: inside groups / loops / other instances, with targets that
+            // fail to evaluate in the instance scope, bad or missing href, non-element targets
+            let tmpl = *rng.pick(&[
+                "<g id=\"t\"><rect wh=\"{{$size}}\"/></g>",
+                "<rect id=\"t\" wh=\"{{$size + $nope}}\"/>",
+                "<g id=\"t\"><rect wh=\"2\"/><reuse href=\"#u\"/></g><g id=\"u\"><rect wh=\"{{$q}}\"/></g>",
+                "<g id=\"t\" transform=\"rotate({{$a}})\"><rect wh=\"2\"/></g>",
+                "<symbol id=\"t\"><circle r=\"$r\"/></symbol>",
+            ]);
+            let r = *rng.pick(&[
+                "<reuse href=\"#t\"/>",
+                "<reuse href=\"#t\" size=\"\"/>",
+                "<reuse/>",
+                "<reuse href=\"t\"/>",
+                "<reuse href=\"#\"/>",
+                "<reuse href=\"^\"/>",
+                "<reuse href=\"#t\" size=\"3\" x=\"#nope|h\"/>",
+                "<reuse href=\"#t\" size=\"{{(}}\"/>",
+            ]);
+            let wrap = match rng.below(5) {
+                0 => r.to_string(),
+                1 => format!("<g>{r}</g>"),
+                2 => format!("<g fill=\"red\"><g>{r}</g><rect wh=\"1\"/></g>"),
+                3 => format!("<loop count=\"2\"><g>{r}</g></loop>"),
+                _ => format!("<g><rect xy=\"#later|h\" wh=\"1\"/>{r}</g><rect id=\"later\" wh=\"1\"/>"),
+            };
+            let specs = if rng.chance(1, 2) { format!("<specs>{tmpl}</specs>") } else { tmpl.to_string() };
+            ("reuse-error-paths".into(), format!("<svg>{specs}{wrap}</svg>").into_bytes())
+        }
+        37 | 38 => {
+            // multi-byte characters at every byte offset of long values (slicing by byte index)
+            let pre = rng.usize(300);
+            let mb = *rng.pick(&["é", "→", "😀", "ß", "Δ", "\u{0301}", "日本"]);
+            let reps = 1 + rng.usize(400);
+            let val = format!("{}{}", "a".repeat(pre), mb.repeat(reps));
+            let s = match rng.below(10) {
+                0 => format!("<svg><rect wh=\"3\" text=\"{val}\"/></svg>"),
+                1 => format!("<svg><rect id=\"{val}\" wh=\"3\"/><rect xy=\"#{val}|h\" wh=\"1\"/></svg>"),
+                2 => format!("<svg><var v=\"{val}\"/><rect wh=\"3\" text=\"$v\"/></svg>"),
+                3 => format!("<svg><rect wh=\"3\" class=\"{val}\" data-x=\"{val}\" style=\"--x:{val}\"/></svg>"),
+                4 => format!("<svg><text xy=\"0 0\">{val}</text><!-- {val} --></svg>"),
+                5 => format!("<svg><rect wh=\"3\" _=\"{val}\" __=\"{val}\"/></svg>"),
+                6 => format!("<svg><specs><rect id=\"t\" wh=\"2\" text=\"$l\"/></specs><reuse href=\"#t\" l=\"{val}\"/></svg>"),
+                7 => format!("<svg><config font-family=\"{val}\" background=\"{val}\" svg-style=\"{val}\"/><rect wh=\"3\" text=\"x\"/></svg>"),
+                8 => format!("<svg><rect wh=\"3\" text=\"{}\" text-loc=\"tl\"/></svg>", val.replace('a', "a\\n")),
+                _ => format!("<svg><for data=\"'{val}', '{mb}'\" var=\"x\"><rect wh=\"2\" text=\"$x\" {val}=\"1\"/></for></svg>"),
+            };
+            ("multibyte-offsets".into(), s.into_bytes())
+        }
+        39 => {
+            // real (namespaced) SVG in non-canonical form: must come out the same however delivered
+            let body = *rng.pick(&[
+                "<rect  width='10'   height = \"5\"\n x=\"1\"/>",
+                "<g\tid='a' ><text x=\"1\"  y='2' >t &amp; u</text></g  >",
+                "<path d='M 0 0 L 1 1' style=\"fill: 'x'\"/><!--c--><?pi x?>",
+                "<rect width=\"1\" height=\"1\"></rect><![CDATA[ x ]]>",
+            ]);
+            let root = *rng.pick(&[
+                "<svg xmlns=\"http://www.w3.org/2000/svg\" width='10'  height=\"5\" >",
+                "<svg   height='5' xmlns='http://www.w3.org/2000/svg'\n   viewBox=\"0 0 1 1\">",
+                "<?xml version='1.0'?>\n<!-- lead -->\n<svg\nxmlns=\"http://www.w3.org/2000/svg\">",
+            ]);
+            ("real-svg-noncanonical".into(), format!("{root}{body}</svg>\n").into_bytes())
         }
         28 => {
             let (dd, why) = docgen::failing_doc(rng);
